@@ -201,6 +201,18 @@ CLAIMED["C18"] = dict(
     technique="Coq proof (resolver model; reflected tree equality) + vm_compute correspondence (K-resolve) + per-pair translation-validation certificates + corruption monitor",
     design_ref="DESIGN.md section 5 C18")
 
+CLAIMED["C17"] = dict(
+    category="translation_validation",
+    text="For every CLI run that exits 0, the machine built by the generated module (imported in a fresh process) and create_machine(json) are "
+         "extracted as labelled trees and compared by the Coq kernel (vm_compute of bad_pairs): a per-output certificate which, by the proved "
+         "reflection C17_tree_equality_reflects / C17_batch_certificate and C17_equal_machines_equal_runs, means equal structure and hence equal "
+         "behaviour for every event sequence. Around it, harness checks of the text-level clauses: exit != 0 leaves no file; every file parses; "
+         "regeneration in another process under another hash seed is byte-identical and --check is silent; import prints / creates nothing and "
+         "executes no JSON string (hostile names); JSON templates bind every referenced name. Scope: random families, hostile and colliding names, "
+         "Stately exports x 5 templates x sync/async x 1-/2-file. The generator at HEAD is REFUTED on guards (recorded findings F17, F17b).",
+    technique="per-output translation validation decided in Coq (reflected tree equality, vm_compute) + subprocess CLI differential",
+    design_ref="DESIGN.md section 5 C17")
+
 PENDING_REASON = "not claimed yet: the check for this property is still being built in this round (DESIGN.md section 5 has the plan)"
 
 
